@@ -827,7 +827,7 @@ var setIDs = []string{"", " ", "a", "b", "policy0", "policy1", "policy10", "é",
 func TestRandom(t *testing.T) {
 	ev.SetChecks(ev.Scale(9000, 900000))
 	maxDepth := ev.Pick(4, 6)
-	rapid.Check(t, func(rt *rapid.T) {
+	ev.Check(t, func(rt *rapid.T) {
 		o := gen.TreeOpts{Keys: gen.KeysMixed}
 		if gen.Chance(rt, 40, "normal") {
 			o.ParserNormal = true
@@ -848,7 +848,7 @@ func TestRandom(t *testing.T) {
 
 func TestRandomSets(t *testing.T) {
 	ev.SetChecks(ev.Scale(1200, 120000))
-	rapid.Check(t, func(rt *rapid.T) {
+	ev.Check(t, func(rt *rapid.T) {
 		o := gen.TreeOpts{Keys: gen.KeysMixed}
 		n := rapid.IntRange(0, 8).Draw(rt, "nids")
 		w := gen.GenWorld(rt, 3, valOpts())
@@ -908,6 +908,9 @@ func TestReplay(t *testing.T) {
 	}
 	if err != nil {
 		t.Fatal(err)
+	}
+	if ev.ReplayFuzz(t, rf, fuzzProps, nil) {
+		return
 	}
 	var sub, msg string
 	var cs any
